@@ -288,6 +288,12 @@ func (t *topo) mkSeg(r *vlib.Rand, w walk, base int64, peerDrop int, mtuNoise bo
 		if mtuNoise && st.inMTU != 0 && r.Chance(20) {
 			e.HopEntry.IngressMTU = 1200 + r.Intn(400)
 		}
+		if r.Chance(8) { // zero-valued optional fields: ingress MTU not announced, AS MTU unset
+			e.HopEntry.IngressMTU = 0
+		}
+		if r.Chance(3) {
+			e.MTU = 0
+		}
 		for _, p := range t.peersOf(st.as) {
 			if r.Chance(peerDrop) {
 				continue
@@ -296,6 +302,9 @@ func (t *topo) mkSeg(r *vlib.Rand, w walk, base int64, peerDrop int, mtuNoise bo
 				HopField: seg.HopField{ExpTime: randExp(r), ConsIngress: p.local, ConsEgress: st.eg, MAC: randMac(r)}}
 			if mtuNoise && r.Chance(20) {
 				pe.PeerMTU = 1200 + r.Intn(400)
+			}
+			if r.Chance(12) { // optional field left at its zero value: the link is still usable
+				pe.PeerMTU = 0
 			}
 			e.PeerEntries = append(e.PeerEntries, pe)
 		}
